@@ -144,11 +144,17 @@ impl<const N: usize> Tape<N> {
     pub fn get(&mut self, kind: u8, width: u32) -> io::Result<u64> {
         if self.pos < self.len {
             let fld = self.f[self.pos];
-            if fld.kind != kind || fld.width != width {
+            // the same bits read with the other signedness are still the same bits: hand over the reinterpreted
+            // pattern (bit-faithful) instead of declaring the grammar broken
+            let reinterpret = fld.kind != kind && fld.width == width && (fld.kind == K_U || fld.kind == K_S) && (kind == K_U || kind == K_S);
+            if (fld.kind != kind || fld.width != width) && !reinterpret {
                 self.shape_mismatch = true;
             }
             self.pos += 1;
             self.rd_bit = (self.rd_bit + Self::bits_of(kind, width, fld.val)) % 8;
+            if reinterpret {
+                return Ok(if kind == K_U { fld.val & mask64(width) } else { sext(fld.val & mask64(width), width) as u64 });
+            }
             return Ok(fld.val);
         }
         if self.failed {
